@@ -11,7 +11,7 @@ use serde_json::{json, Value};
 use std::collections::BTreeSet;
 use std::sync::Arc;
 
-const IDS: &[&str] = &["a", "b", "ab", "b1", "z", "A", "r10", "r9"];
+const IDS: &[&str] = &["a", "b", "ab", "b1", "z", "A", "r10", "r9", "7", "07", "3", "12"];
 const HNAMES: &[&str] = &["X-A", "x-a", "X-B", "Location", "location"];
 const CODESETS: &[&[u64]] = &[&[], &[404], &[200, 404], &[301], &[500, 200]];
 
@@ -28,7 +28,9 @@ fn gen_rule(rng: &mut Rng, id: &str) -> Value {
     let reset: Value = match rng.below(8) { 0 => json!(true), 1 => json!(false), _ => Value::Null };
     let stop: Value = match rng.below(8) { 0 => json!(true), 1 => json!(false), _ => Value::Null };
     let sampling: Value = match rng.below(8) { 0 => json!(0), 1 => json!(100), 2 => json!(250), _ => Value::Null };
-    json!({"id": id, "rank": rng.below(3), "status": status, "target": target, "codes": codes, "excl": excl,
+    // ranks: mostly small (ties), sometimes around the digit-count boundaries of u16
+    let rank = match rng.below(12) { 0 => *rng.pick(&[9usize, 10, 99, 100, 999, 1000, 9999, 10000, 65535]), _ => rng.below(3) };
+    json!({"id": id, "rank": rank, "status": status, "target": target, "codes": codes, "excl": excl,
            "hf": hf, "bf": bf, "log": log, "reset": reset, "stop": stop, "sampling": sampling})
 }
 
